@@ -216,7 +216,9 @@ class DriverSim:
             self.max_iter = ch.rng(5, 10)
             if self.family in ("mech", "poro", "damage"):
                 self.max_iter += 6  # contact mechanics needs 6-13 iterations per step without any fault
-            iter_max = self.max_iter + ch.rng(0, 2)
+            # the time manager's iter_max may be smaller than the Newton solver's max_iterations: a step that converges
+            # late then reports more iterations than iter_max (allowed; restricts dt)
+            iter_max = max(2, self.max_iter + ch.rng(-3, 2))
             hi_opt = ch.rng(1, iter_max)
             lo_opt = ch.rng(1, hi_opt)
             self.tm_kw = dict(
